@@ -108,6 +108,8 @@ func (s *soup) payload(i int) []byte {
 			b.Write(make([]byte, 5))
 		case 3:
 			b.Write([]byte{0x0a, 0x02, 0x08})
+		case 4:
+			// an empty message: every field at its default
 		default:
 			for _, k := range n.Kids {
 				b.Write(s.field(k))
@@ -366,6 +368,45 @@ func legacyBytes(l legacy) ([]byte, bool) {
 				}
 			}
 			out = append(out, x)
+		}
+		doc = bytes.Join(out, nil)
+	case "emptyStack":
+		// a record without any address: in thread dumps the frames of one thread are removed or replaced by the
+		// "same as previous" marker (also for the very first thread); elsewhere nothing follows the '@'
+		if binaryDoc {
+			return nil, false
+		}
+		ls := lines()
+		var out [][]byte
+		if l.Doc == "threadz" {
+			thread := -1
+			for _, x := range ls {
+				t := bytes.TrimSpace(x)
+				if bytes.HasPrefix(t, []byte("--- Thread")) {
+					thread++
+					out = append(out, x)
+					if thread == 0 && l.Pos%4 == 1 || l.Pos%4 == 2 {
+						out = append(out, []byte("  [same as previous thread]\n"))
+					}
+					continue
+				}
+				isFrame := bytes.HasPrefix(t, []byte("PC:")) || bytes.HasPrefix(t, []byte("0x")) || bytes.HasPrefix(t, []byte("creator:")) || bytes.HasPrefix(t, []byte("[same"))
+				if isFrame && thread >= 0 && (thread == 0 && l.Pos%4 <= 1 || l.Pos%4 == 2 || thread == 1 && l.Pos%4 == 3) {
+					continue
+				}
+				out = append(out, x)
+			}
+		} else {
+			k := 0
+			for _, x := range ls {
+				if i := bytes.IndexByte(x, '@'); i >= 0 && !bytes.HasPrefix(x, []byte("heap profile")) && !bytes.Contains(x, []byte("heap")) {
+					if k == l.Pos {
+						x = append(append([]byte{}, x[:i+1]...), '\n')
+					}
+					k++
+				}
+				out = append(out, x)
+			}
 		}
 		doc = bytes.Join(out, nil)
 	case "truncFrac":
